@@ -23,6 +23,11 @@ def judge(cases):
                     f.append("a node in cluster %d applied a broadcast declaring cluster %s (%s connection)" % (c["receiver_cluster"], "absent->0" if c["declared"] == -1 else c["declared"], "existing" if c["existing_connection"] else "fresh"))
                 else:
                     f.append("a node in cluster %d dropped a broadcast of its own cluster (%s connection)" % (c["receiver_cluster"], "existing" if c["existing_connection"] else "fresh"))
+        elif c["kind"] == "send":
+            # safety only: a member of another cluster than the sender's current one never receives its broadcast
+            other = "member_cluster1_got" if c["sender_cluster"] == 0 else "member_cluster0_got"
+            if c[other]:
+                f.append("a change written by a node in cluster %d reached (and was applied by) the member of cluster %d: the sender addressed / stamped it for a cluster it is not in (%s its cluster id changed at run time)" % (c["sender_cluster"], 1 - c["sender_cluster"], c["phase"]))
         else:
             same = c["client_cluster"] == c["server_cluster"]
             if not same:
@@ -44,7 +49,7 @@ def run(tier):
     cov = {"states": 0, "transitions": 0, "traces_validated_against_impl": 0, "samples": []}
     ids = "{0, 1}" if tier == "quick" else "{0, 1, 2}"
     c = os.path.join(vlib.scratch(), "cluster.cfg")
-    open(c, "w").write("SPECIFICATION Spec\nCONSTANTS\n Nodes = {1, 2}\n Ids = %s\n Dynamic = %s\nINVARIANTS C16_NoCrossApply C16_SyncRejected\n" % (ids, "TRUE" if DYNAMIC else "FALSE"))
+    open(c, "w").write("SPECIFICATION Spec\nCONSTANTS\n Nodes = {1, 2}\n Ids = %s\n Dynamic = %s\n DynamicSend = TRUE\nINVARIANTS C16_NoCrossApply C16_NoCrossData C16_SyncRejected\n" % (ids, "TRUE" if DYNAMIC else "FALSE"))
     r = vlib.run_tlc("Cluster.tla", c, workers=6, timeout=1800, budget=600)
     if r.error:
         raise vlib.ToolError("TLC Cluster: %s\n%s" % (r.error, r.output[-1200:]))
